@@ -1,7 +1,7 @@
 (** C17 — proofs.  §A hash maps; §B printer context (from_config, bag, local names, skeleton, gen);
     §C SchemaBuilder / Schema / map_str; §D definition permutations; §E ExtensionList sorting;
     §F the table of known iteration sites. *)
-From V Require Import Base.Util C17.Sites C17.Model.
+From V Require Import Base.Util C17.Sites C17.Model C17.Spec.
 From V Require Gen.C17_sites_gen.
 From Coq Require Import Permutation Sorting.Sorted String.
 Import ListNotations.
@@ -845,3 +845,645 @@ Definition known_hash_files : list (str * string) := [
 Lemma all_hash_files_accounted :
   forallb (fun f => existsb (fun kf => str_eqb f (fst kf)) known_hash_files) hash_mention_files = true.
 Proof. vm_compute. reflexivity. Qed.
+
+(* ------------------------------------------------------------------------------------------- *)
+(** * Examples: the guards of the theorems are satisfiable by non-trivial inputs *)
+
+Local Close Scope string_scope.
+
+Ltac nodup_strs := repeat constructor; intros Hc; cbv in Hc; intuition discriminate.
+
+Definition ex_pos (l : N) : pos := mk_pos l 0 0 false.
+Definition ex_def (k : kind) (n : str) (l : N) (ifs items : list str) : item :=
+  IDef (mk_adef false k n (ex_pos l) ifs items []).
+(** two files; [Date2] is mentioned by the TS type of scalar [Date], so it must be renamed;
+    [Node] is implemented by [B] (file 1, line 1) and [A] (file 2, line 2): positions decide the order *)
+Definition ex_files : list (list item) :=
+  [ [ ex_def KObject (s "A") 2 [s "Node"] [s "id"];
+      ex_def KScalar (s "Date") 5 [] [] ];
+    [ ex_def KInterface (s "Node") 0 [] [s "id"];
+      ex_def KObject (s "B") 1 [s "Node"] [s "id"];
+      ex_def KObject (s "Date2") 3 [] [s "z"];
+      IDef (mk_adef true KObject (s "A") (ex_pos 7) [] [s "extra"] []) ] ].
+Definition ex_cfg : hmap scfg := [(s "Date", Single (s "Date2 | string"))].
+
+Example ex_cfg_guard : NoDup (keys ex_cfg).
+Proof. nodup_strs. Qed.
+
+Example ex_gen_nontrivial :
+  exists decls, gen o_rev o_rot ex_cfg ex_files [] = GOk decls
+    /\ In (mk_decl 1 (s "__tmp_Date2") (s "Date2") BNone) decls
+    /\ In (mk_decl 1 (s "Node") (s "Node") (BUnion [s "B"; s "A"])) decls
+    /\ In (mk_decl 0 (s "Date") (s "Date") (BText (s "Date2 | string"))) decls.
+Proof. eexists. split; [vm_compute; reflexivity|]. repeat split; cbv; intuition. Qed.
+
+Example ex_gen_same_for_other_oracles :
+  gen o_rev o_rot ex_cfg ex_files [] = gen o_id o_id ex_cfg ex_files [].
+Proof.
+  apply gen_oracle_irrelevant;
+    [apply o_rev_is_oracle|apply o_rot_is_oracle|apply o_id_is_oracle|apply o_id_is_oracle|apply ex_cfg_guard].
+Qed.
+
+Definition ex_doc : list item :=
+  match resolve_schema_extensions (merge_files ex_files []) with Ok d => d | Err _ => [] end.
+
+Example ex_def_permutation_guard : NoDup (map d_name (type_defs ex_doc)) /\ List.length (type_defs ex_doc) = 5%nat.
+Proof. split; [vm_compute; nodup_strs|vm_compute; reflexivity]. Qed.
+
+Example ex_map_str_guard :
+  let sc := ast_to_type_system ex_doc in
+  wf sc /\ NoDup (map (fun x => s "X_" ++ x) (sc_names sc)) /\ List.length (sc_names sc) = 5%nat.
+Proof.
+  cbv zeta. split; [apply wf_build|]. split; [vm_compute; nodup_strs|vm_compute; reflexivity].
+Qed.
+
+(** the extension list really reorders: insertion order A(2), Date(5) | Node(0), B(1), Date2(3) per kind *)
+Example ex_extension_list_reorders :
+  into_original_and_extensions (s "type")
+    [ (s "A", mk_xitem (Some (mk_adef false KObject (s "A") (ex_pos 2) [] [] [])) []);
+      (s "B", mk_xitem (Some (mk_adef false KObject (s "B") (ex_pos 1) [] [] [])) []) ]
+  = Ok [ (mk_adef false KObject (s "B") (ex_pos 1) [] [] [], []);
+         (mk_adef false KObject (s "A") (ex_pos 2) [] [] [], []) ].
+Proof. vm_compute. reflexivity. Qed.
+
+(* ------------------------------------------------------------------------------------------- *)
+(** * §G the verdict of resolve_schema_extensions does not depend on the order of definitions *)
+
+
+Lemma kind_eqb_eq a b : kind_eqb a b = true <-> a = b.
+Proof. destruct a, b; cbn; split; intros H; try reflexivity; try discriminate. Qed.
+Lemma kind_eqb_refl a : kind_eqb a a = true.
+Proof. now apply kind_eqb_eq. Qed.
+Lemma kind_eqb_spec a b : reflect (a = b) (kind_eqb a b).
+Proof. destruct (kind_eqb a b) eqn:E; constructor; [now apply kind_eqb_eq|intros H; apply kind_eqb_eq in H; congruence]. Qed.
+
+Definition is_orig_at (k : kind) (n : str) (d : adef) : bool :=
+  negb (d_ext d) && kind_eqb (d_kind d) k && str_eqb (d_name d) n.
+Definition is_ext_at (k : kind) (n : str) (d : adef) : bool :=
+  d_ext d && kind_eqb (d_kind d) k && str_eqb (d_name d) n.
+
+Definition has_orig (xs : xlists) (k : kind) (n : str) : bool :=
+  match xl_get (xs k) n with Some (mk_xitem (Some _) _) => true | _ => false end.
+Definition has_ext (xs : xlists) (k : kind) (n : str) : bool :=
+  match xl_get (xs k) n with Some (mk_xitem _ (_ :: _)) => true | _ => false end.
+
+(** what the seven lists know after the definitions [seen] have been scanned *)
+Definition Inv (xs : xlists) (seen : list adef) : Prop :=
+  forall k n, has_orig xs k n = existsb (is_orig_at k n) seen /\ has_ext xs k n = existsb (is_ext_at k n) seen.
+Definition KN (xs : xlists) : Prop := forall k, NoDup (map fst (xs k)).
+
+Definition dflt : xitem := mk_xitem None [].
+
+Lemma xl_get_update l k f k' :
+  xl_get (xl_update l k f) k' =
+  if str_eqb k k' then Some (f (match xl_get l k with Some it => it | None => dflt end)) else xl_get l k'.
+Proof.
+  induction l as [|[k0 it] r IH]; cbn [xl_update xl_get].
+  - destruct (str_eqb k k'); reflexivity.
+  - destruct (str_eqb_spec k0 k) as [E|Hn]; cbn [xl_get].
+    + subst k0. destruct (str_eqb k k'); reflexivity.
+    + rewrite IH. destruct (str_eqb_spec k0 k') as [E'|Hn'].
+      * subst k0. destruct (str_eqb_spec k k') as [E''|]; [congruence|reflexivity].
+      * reflexivity.
+Qed.
+
+Lemma xl_update_keys_in l k f x : In x (map fst (xl_update l k f)) -> In x (map fst l) \/ x = k.
+Proof.
+  induction l as [|[k0 it] r IH]; cbn [xl_update map fst In].
+  - intros [E|[]]; now right.
+  - destruct (str_eqb k0 k); cbn [map fst In]; [tauto|].
+    intros [E|H]; [now left; left|]. destruct (IH H); [left; now right|now right].
+Qed.
+
+Lemma xl_update_nodup l k f : NoDup (map fst l) -> NoDup (map fst (xl_update l k f)).
+Proof.
+  induction l as [|[k0 it] r IH]; intros Hnd; cbn [xl_update].
+  - cbn. constructor; [intros []|constructor].
+  - cbn [map fst] in Hnd. inversion Hnd as [|? ? Hn Hr]; subst.
+    destruct (str_eqb_spec k0 k) as [E|Hne]; cbn [map fst].
+    + now constructor.
+    + constructor; [|now apply IH]. intros Hin. apply xl_update_keys_in in Hin. destruct Hin; [contradiction|congruence].
+Qed.
+
+Lemma xs_set_same xs k l : xs_set xs k l k = l.
+Proof. unfold xs_set. now rewrite kind_eqb_refl. Qed.
+Lemma xs_set_other xs k l k' : k' <> k -> xs_set xs k l k' = xs k'.
+Proof. unfold xs_set. intros H. destruct (kind_eqb_spec k' k); [contradiction|reflexivity]. Qed.
+
+Lemma existsb_snoc {A} (f : A -> bool) l x : existsb f (l ++ [x]) = existsb f l || f x.
+Proof. rewrite existsb_app. cbn. now rewrite orb_false_r. Qed.
+
+Lemma KN_set xs k l : KN xs -> NoDup (map fst l) -> KN (xs_set xs k l).
+Proof.
+  intros H Hl k'. destruct (kind_eqb_spec k' k) as [->|Hn]; [now rewrite xs_set_same|now rewrite xs_set_other].
+Qed.
+
+Lemma step_ext xs seen d :
+  Inv xs seen -> d_ext d = true ->
+  Inv (xs_set xs (d_kind d) (add_extension (xs (d_kind d)) d)) (seen ++ [d]).
+Proof.
+  intros HI He k n. destruct (HI k n) as [Ho Hx]. rewrite !existsb_snoc.
+  unfold is_orig_at at 2, is_ext_at at 2. rewrite He. cbn [negb andb]. rewrite orb_false_r.
+  unfold has_orig, has_ext in *.
+  destruct (kind_eqb_spec (d_kind d) k) as [Ek|Nk].
+  - subst k. rewrite xs_set_same. unfold add_extension. rewrite xl_get_update.
+    destruct (str_eqb_spec (d_name d) n) as [En|Nn].
+    + subst n. cbn [x_orig x_exts]. split.
+      * rewrite <- Ho. destruct (xl_get (xs (d_kind d)) (d_name d)) as [[o e]|]; reflexivity.
+      * rewrite orb_true_r.
+        destruct (xl_get (xs (d_kind d)) (d_name d)) as [[o [|e0 e]]|]; reflexivity.
+    + rewrite orb_false_r. now split.
+  - rewrite xs_set_other by congruence. rewrite orb_false_r. now split.
+Qed.
+
+Lemma step_orig xs seen d :
+  Inv xs seen -> d_ext d = false ->
+  match set_original (elem_name (d_kind d)) (xs (d_kind d)) d with
+  | Err (DuplicateOriginal _ _ _ _) => existsb (is_orig_at (d_kind d) (d_name d)) seen = true
+  | Err (NoOriginal _ _) => False
+  | Ok l => existsb (is_orig_at (d_kind d) (d_name d)) seen = false
+            /\ Inv (xs_set xs (d_kind d) l) (seen ++ [d])
+            /\ (NoDup (map fst (xs (d_kind d))) -> NoDup (map fst l))
+  end.
+Proof.
+  intros HI He. unfold set_original.
+  destruct (HI (d_kind d) (d_name d)) as [Ho _]. unfold has_orig in Ho.
+  destruct (xl_get (xs (d_kind d)) (d_name d)) as [[[first|] exts]|] eqn:Eg.
+  - now rewrite <- Ho.
+  - (* entry exists without original *)
+    split; [now rewrite <- Ho|]. split; [|apply xl_update_nodup].
+    intros k n. destruct (HI k n) as [Ho' Hx']. rewrite !existsb_snoc.
+    unfold is_orig_at at 2, is_ext_at at 2. rewrite He. cbn [negb andb]. rewrite orb_false_r.
+    unfold has_orig, has_ext in *.
+    destruct (kind_eqb_spec (d_kind d) k) as [Ek|Nk].
+    + subst k. rewrite xs_set_same, xl_get_update.
+      destruct (str_eqb_spec (d_name d) n) as [En|Nn].
+      * subst n. rewrite Eg in *. cbn [x_exts]. rewrite orb_true_r. split; [reflexivity|exact Hx'].
+      * rewrite orb_false_r. now split.
+    + rewrite xs_set_other by congruence. rewrite orb_false_r. now split.
+  - split; [now rewrite <- Ho|]. split; [|apply xl_update_nodup].
+    intros k n. destruct (HI k n) as [Ho' Hx']. rewrite !existsb_snoc.
+    unfold is_orig_at at 2, is_ext_at at 2. rewrite He. cbn [negb andb]. rewrite orb_false_r.
+    unfold has_orig, has_ext in *.
+    destruct (kind_eqb_spec (d_kind d) k) as [Ek|Nk].
+    + subst k. rewrite xs_set_same, xl_get_update.
+      destruct (str_eqb_spec (d_name d) n) as [En|Nn].
+      * subst n. rewrite Eg in *. cbn [x_exts dflt]. rewrite orb_true_r. split; [reflexivity|exact Hx'].
+      * rewrite orb_false_r. now split.
+    + rewrite xs_set_other by congruence. rewrite orb_false_r. now split.
+Qed.
+
+
+Lemma slot_eqb_sym a b : slot_eqb a b = slot_eqb b a.
+Proof.
+  unfold slot_eqb. rewrite (str_eqb_sym (d_name a)). f_equal.
+  destruct (kind_eqb_spec (d_kind a) (d_kind b)) as [E|N], (kind_eqb_spec (d_kind b) (d_kind a)) as [E'|N']; congruence.
+Qed.
+
+Lemma snodup_perm l l' : Permutation l l' -> snodup l = snodup l'.
+Proof.
+  induction 1 as [|x l l' Hp IH|x y l|l l' l'' _ IH1 _ IH2]; cbn [snodup existsb].
+  - reflexivity.
+  - now rewrite IH, (existsb_perm _ l l' Hp).
+  - rewrite (slot_eqb_sym y x).
+    destruct (slot_eqb x y), (existsb (slot_eqb x) l), (existsb (slot_eqb y) l), (snodup l); reflexivity.
+  - congruence.
+Qed.
+
+Lemma is_orig_at_slot d x : d_ext x = false -> is_orig_at (d_kind d) (d_name d) x = slot_eqb d x.
+Proof.
+  intros He. unfold is_orig_at, slot_eqb. rewrite He. cbn [negb andb].
+  rewrite (str_eqb_sym (d_name x)). f_equal.
+  destruct (kind_eqb_spec (d_kind x) (d_kind d)) as [E|N], (kind_eqb_spec (d_kind d) (d_kind x)) as [E'|N']; congruence.
+Qed.
+
+Lemma existsb_orig_at d seen :
+  existsb (is_orig_at (d_kind d) (d_name d)) seen = existsb (slot_eqb d) (originals seen).
+Proof.
+  unfold originals. induction seen as [|x r IH]; [reflexivity|]. cbn [existsb filter].
+  destruct (d_ext x) eqn:E; cbn [negb].
+  - rewrite <- IH. unfold is_orig_at. rewrite E. reflexivity.
+  - cbn [existsb]. rewrite <- IH. now rewrite is_orig_at_slot.
+Qed.
+
+Lemma originals_app a b : originals (a ++ b) = originals a ++ originals b.
+Proof. unfold originals. apply filter_app. Qed.
+
+
+(** the scanning loop fails exactly when two originals share a slot; otherwise it establishes [Inv] *)
+Lemma scan_items_char its : forall xs dirs seen,
+  Inv xs seen -> KN xs -> snodup (originals seen) = true ->
+  match scan_items its xs dirs with
+  | Err e => eclass e = 1%N /\ snodup (originals (seen ++ idefs its)) = false
+  | Ok (xs', _) => Inv xs' (seen ++ idefs its) /\ KN xs' /\ snodup (originals (seen ++ idefs its)) = true
+  end.
+Proof.
+  induction its as [|[d|n p] r IH]; intros xs dirs seen HI HK Hs; cbn [scan_items idefs flat_map].
+  - rewrite app_nil_r. split; [exact HI|split; [exact HK|exact Hs]].
+  - cbn [app]. change (flat_map (fun it => match it with IDef d0 => [d0] | IDirective _ _ => [] end) r) with (idefs r).
+    replace (seen ++ d :: idefs r) with ((seen ++ [d]) ++ idefs r) by (now rewrite <- app_assoc).
+    destruct (d_ext d) eqn:He.
+    + apply IH.
+      * now apply step_ext.
+      * apply KN_set; [exact HK|]. unfold add_extension. apply xl_update_nodup, HK.
+      * rewrite originals_app. cbn [originals filter]. rewrite He. cbn [negb]. now rewrite app_nil_r.
+    + pose proof (step_orig xs seen d HI He) as Hst.
+      destruct (set_original (elem_name (d_kind d)) (xs (d_kind d)) d) as [l|[e0 n0 f0 s0|e0 p0]].
+      * destruct Hst as (Hfresh & HI' & Hnd). apply IH; [exact HI'|apply KN_set; [exact HK|apply Hnd, HK]|].
+        rewrite originals_app. cbn [originals filter]. rewrite He. cbn [negb].
+        rewrite (snodup_perm _ (d :: originals seen)) by (apply Permutation_sym, Permutation_cons_append).
+        cbn [snodup]. rewrite <- existsb_orig_at, Hfresh. exact Hs.
+      * split; [reflexivity|].
+        rewrite !originals_app. cbn [originals filter]. rewrite He. cbn [negb].
+        rewrite <- app_assoc. cbn [app].
+        rewrite (snodup_perm _ (d :: originals seen ++ filter (fun d0 => negb (d_ext d0)) (idefs r)))
+          by (apply Permutation_sym, Permutation_middle).
+        cbn [snodup]. rewrite existsb_app, <- existsb_orig_at, Hst. reflexivity.
+      * destruct Hst.
+  - apply IH; assumption.
+Qed.
+
+
+Lemma collect_items_err_class elem l e : collect_items elem l = Err e -> eclass e = 2%N.
+Proof.
+  induction l as [|[k [[o|] exts]] r IH]; cbn [collect_items]; [discriminate| |].
+  - destruct (collect_items elem r); [discriminate|]. intros H; inversion H; subst. now apply IH.
+  - destruct exts; [exact IH|]. intros H; inversion H. reflexivity.
+Qed.
+
+Lemma collect_items_orphan elem l :
+  (exists t, collect_items elem l = Ok t) <-> existsb orphan_b l = false.
+Proof.
+  split.
+  - intros (t & Ht). destruct (collect_items_ok elem l t Ht) as [_ Hf].
+    clear Ht. induction l as [|x r IH]; [reflexivity|]. cbn [forallb existsb] in *.
+    apply andb_true_iff in Hf. destruct Hf as [H1 H2]. apply negb_true_iff in H1. rewrite H1. now apply IH.
+  - intros H. eexists. apply collect_items_complete.
+    induction l as [|x r IH]; [reflexivity|]. cbn [forallb existsb] in *.
+    apply orb_false_iff in H. destruct H as [H1 H2]. rewrite H1. cbn. now apply IH.
+Qed.
+
+(** with unique keys, an orphan entry in the list is an orphan slot of the lookup view *)
+Lemma orphan_lookup (xs : xlists) k :
+  NoDup (map fst (xs k)) ->
+  existsb orphan_b (xs k) = true <-> exists n, has_ext xs k n = true /\ has_orig xs k n = false.
+Proof.
+  intros Hnd. rewrite existsb_exists. unfold has_ext, has_orig. split.
+  - intros ([n [o e]] & Hin & Ho). unfold orphan_b in Ho. cbn [snd x_orig x_exts] in Ho.
+    exists n. assert (Hg : xl_get (xs k) n = Some (mk_xitem o e)).
+    { clear Ho. revert Hnd Hin. generalize (xs k). induction x as [|[k0 it] r IH]; intros Hnd Hin; [destruct Hin|].
+      cbn [map fst] in Hnd. inversion Hnd as [|? ? Hn Hr]; subst. cbn [xl_get].
+      destruct Hin as [E|Hin].
+      - inversion E; subst. now rewrite str_eqb_refl.
+      - destruct (str_eqb_spec k0 n) as [->|Hne]; [|now apply IH].
+        exfalso. apply Hn. apply in_map_iff. now exists (n, mk_xitem o e). }
+    rewrite Hg. destruct o; [discriminate|]. destruct e; [discriminate|]. now split.
+  - intros (n & He & Ho). destruct (xl_get (xs k) n) as [[o e]|] eqn:Hg; [|discriminate].
+    exists (n, mk_xitem o e). split.
+    + clear He Ho Hnd. revert Hg. generalize (xs k). induction x as [|[k0 it] r IH]; cbn [xl_get]; [discriminate|].
+      destruct (str_eqb_spec k0 n) as [->|Hne]; intros H; [inversion H; now left|right; now apply IH].
+    + unfold orphan_b. cbn [snd x_orig x_exts]. destruct o; [discriminate|]. destruct e; [discriminate|reflexivity].
+Qed.
+
+Lemma has_orphan_spec l :
+  has_orphan l = true <->
+  exists k n, existsb (is_ext_at k n) l = true /\ existsb (is_orig_at k n) l = false.
+Proof.
+  unfold has_orphan. rewrite existsb_exists. split.
+  - intros (e & Hin & H). apply andb_true_iff in H. destruct H as [He Hno]. apply negb_true_iff in Hno.
+    exists (d_kind e), (d_name e). split.
+    + apply existsb_exists. exists e. split; [exact Hin|]. unfold is_ext_at. now rewrite He, kind_eqb_refl, str_eqb_refl.
+    + destruct (existsb (is_orig_at (d_kind e) (d_name e)) l) eqn:Ex; [|reflexivity].
+      apply existsb_exists in Ex. destruct Ex as (o & Hino & Ho).
+      assert (existsb (fun o0 => negb (d_ext o0) && slot_eqb e o0) l = true); [|congruence].
+      apply existsb_exists. exists o. split; [exact Hino|].
+      unfold is_orig_at in Ho. apply andb_true_iff in Ho. destruct Ho as [Ho Hn]. apply andb_true_iff in Ho. destruct Ho as [Hoe Hk].
+      rewrite Hoe. cbn [andb]. unfold slot_eqb. apply kind_eqb_eq in Hk. apply str_eqb_eq in Hn.
+      now rewrite Hk, Hn, kind_eqb_refl, str_eqb_refl.
+  - intros (k & n & He & Ho). apply existsb_exists in He. destruct He as (e & Hin & He).
+    unfold is_ext_at in He. apply andb_true_iff in He. destruct He as [He Hn]. apply andb_true_iff in He. destruct He as [Hee Hk].
+    apply kind_eqb_eq in Hk. apply str_eqb_eq in Hn. subst k n.
+    exists e. split; [exact Hin|]. rewrite Hee. cbn [andb]. apply negb_true_iff.
+    destruct (existsb (fun o => negb (d_ext o) && slot_eqb e o) l) eqn:Ex; [|reflexivity].
+    apply existsb_exists in Ex. destruct Ex as (o & Hino & H). apply andb_true_iff in H. destruct H as [Hoe Hs].
+    assert (existsb (is_orig_at (d_kind e) (d_name e)) l = true); [|congruence].
+    apply existsb_exists. exists o. split; [exact Hino|].
+    apply negb_true_iff in Hoe. now rewrite is_orig_at_slot.
+Qed.
+
+Lemma finish_kinds_char (xs : xlists) ks :
+  KN xs ->
+  match finish_kinds ks xs with
+  | Err e => eclass e = 2%N /\ exists k, In k ks /\ existsb orphan_b (xs k) = true
+  | Ok _ => forall k, In k ks -> existsb orphan_b (xs k) = false
+  end.
+Proof.
+  intros HK. induction ks as [|k r IH]; cbn [finish_kinds]; [intros k []|].
+  unfold into_original_and_extensions.
+  destruct (collect_items (elem_name k) (xs k)) as [t|e] eqn:E.
+  - assert (Hk : existsb orphan_b (xs k) = false) by (apply (collect_items_orphan (elem_name k)); now exists t).
+    destruct (finish_kinds r xs) as [t'|e'].
+    + intros k' [<-|Hin]; [exact Hk|now apply IH].
+    + destruct IH as (Hc & k' & Hin & Ho). split; [exact Hc|]. exists k'. split; [now right|exact Ho].
+  - split; [now apply (collect_items_err_class _ _ _ E)|]. exists k. split; [now left|].
+    destruct (existsb orphan_b (xs k)) eqn:Ex; [reflexivity|].
+    apply (collect_items_orphan (elem_name k)) in Ex. destruct Ex as (t & Ht). congruence.
+Qed.
+
+Lemma all_kinds_complete k : In k all_kinds.
+Proof. destruct k; cbn; tauto. Qed.
+
+
+(** the verdict of the resolver, read off the multiset of definitions *)
+Lemma resolve_verdict its :
+  vclass (resolve_schema_extensions its) =
+  if negb (snodup (originals (idefs its))) then 1%N else if has_orphan (idefs its) then 2%N else 0%N.
+Proof.
+  unfold resolve_schema_extensions.
+  assert (HI0 : Inv (fun _ => []) []) by (intros k n; now split).
+  assert (HK0 : KN (fun _ => [])) by (intros k; constructor).
+  pose proof (scan_items_char its (fun _ => []) [] [] HI0 HK0 eq_refl) as Hs. cbn [app] in Hs.
+  destruct (scan_items its (fun _ => []) []) as [[xs dirs]|e].
+  - destruct Hs as (HI & HK & Hnd). rewrite Hnd. cbn [negb].
+    pose proof (finish_kinds_char xs all_kinds HK) as Hf.
+    destruct (finish_kinds all_kinds xs) as [t|e]; cbn [vclass].
+    + destruct (has_orphan (idefs its)) eqn:Ho; [|reflexivity]. exfalso.
+      apply has_orphan_spec in Ho. destruct Ho as (k & n & He & Hno).
+      specialize (Hf k (all_kinds_complete k)).
+      assert (existsb orphan_b (xs k) = true); [|congruence].
+      apply (orphan_lookup xs k (HK k)). exists n. destruct (HI k n) as [-> ->]. now split.
+    + destruct Hf as (Hc & k & _ & Ho). rewrite Hc.
+      apply (orphan_lookup xs k (HK k)) in Ho. destruct Ho as (n & He & Hno).
+      destruct (HI k n) as [Eo Ee]. rewrite Eo in Hno. rewrite Ee in He.
+      assert (has_orphan (idefs its) = true) as -> by (apply has_orphan_spec; now exists k, n).
+      reflexivity.
+  - destruct Hs as (Hc & Hnd). cbn [vclass]. now rewrite Hc, Hnd.
+Qed.
+
+Lemma idefs_perm its its' : Permutation its its' -> Permutation (idefs its) (idefs its').
+Proof. intros H. unfold idefs. now apply Permutation_flat_map. Qed.
+
+Lemma existsb_ext' {A} (f g : A -> bool) l : (forall x, f x = g x) -> existsb f l = existsb g l.
+Proof. intros E. induction l as [|x r IH]; [reflexivity|]. cbn [existsb]. now rewrite E, IH. Qed.
+
+Lemma has_orphan_perm l l' : Permutation l l' -> has_orphan l = has_orphan l'.
+Proof.
+  intros Hp. unfold has_orphan. rewrite (existsb_perm _ l l' Hp).
+  apply existsb_ext'. intros e. now rewrite (existsb_perm _ l l' Hp).
+Qed.
+
+(** verdict(pi(P)) = verdict(P) at the resolver: success / duplicate / missing original does not depend on
+    the order of the definitions (which positions are reported of course does) *)
+Lemma resolve_verdict_permutation its its' :
+  Permutation its its' ->
+  vclass (resolve_schema_extensions its) = vclass (resolve_schema_extensions its').
+Proof.
+  intros Hp. rewrite !resolve_verdict. pose proof (idefs_perm its its' Hp) as Hd.
+  rewrite (snodup_perm (originals (idefs its)) (originals (idefs its'))) by (now apply filter_perm).
+  now rewrite (has_orphan_perm _ _ Hd).
+Qed.
+
+(* ------------------------------------------------------------------------------------------- *)
+(** * §H the declaration skeleton under a permutation of the (resolved) document *)
+
+Definition body_equiv (a b : body) : Prop :=
+  match a, b with BUnion l, BUnion l' => Permutation l l' | _, _ => a = b end.
+Definition decl_equiv (d d' : decl) : Prop :=
+  dc_section d = dc_section d' /\ dc_local d = dc_local d' /\ dc_schema d = dc_schema d'
+  /\ body_equiv (dc_body d) (dc_body d').
+(** same declarations up to their order and up to the order of union members *)
+Definition decls_equiv (l l' : list decl) : Prop := exists m, Permutation l m /\ Forall2 decl_equiv m l'.
+
+Lemma body_equiv_refl b : body_equiv b b.
+Proof. destruct b; cbn; [reflexivity|reflexivity|apply Permutation_refl]. Qed.
+Lemma decl_equiv_refl d : decl_equiv d d.
+Proof. repeat split; try reflexivity. apply body_equiv_refl. Qed.
+Lemma Forall2_decl_refl l : Forall2 decl_equiv l l.
+Proof. induction l; constructor; [apply decl_equiv_refl|assumption]. Qed.
+
+Lemma decls_equiv_app a a' b b' : decls_equiv a a' -> decls_equiv b b' -> decls_equiv (a ++ b) (a' ++ b').
+Proof.
+  intros (m & P & F) (m' & P' & F'). exists (m ++ m'). split; [now apply Permutation_app|now apply Forall2_app].
+Qed.
+
+(** sequencing of result lists, the shape shared by print_defs and print_representatives *)
+Fixpoint seq_res {A E B} (f : A -> res E (list B)) (l : list A) : res E (list B) :=
+  match l with
+  | [] => Ok []
+  | x :: r => match f x with
+              | Err e => Err e
+              | Ok a => match seq_res f r with Ok b => Ok (a ++ b) | Err e => Err e end
+              end
+  end.
+
+Lemma seq_res_pointwise {A E B} (R : B -> B -> Prop) (f f' : A -> res E (list B)) l :
+  (forall x a, In x l -> f x = Ok a -> exists a', f' x = Ok a' /\ Forall2 R a a') ->
+  forall r, seq_res f l = Ok r -> exists r', seq_res f' l = Ok r' /\ Forall2 R r r'.
+Proof.
+  induction l as [|x t IH]; intros H r Hr; cbn [seq_res] in *.
+  - inversion Hr; subst. exists []. split; [reflexivity|constructor].
+  - destruct (f x) as [a|e] eqn:Ef; [|discriminate].
+    destruct (seq_res f t) as [b|e] eqn:Et; [|discriminate]. inversion Hr; subst.
+    destruct (H x a (or_introl eq_refl) Ef) as (a' & -> & Fa).
+    destruct (IH (fun y c Hy => H y c (or_intror Hy)) b eq_refl) as (b' & -> & Fb).
+    exists (a' ++ b'). split; [reflexivity|now apply Forall2_app].
+Qed.
+
+Lemma seq_res_perm {A E B} (f : A -> res E (list B)) l l' :
+  Permutation l l' -> forall r, seq_res f l = Ok r -> exists r', seq_res f l' = Ok r' /\ Permutation r r'.
+Proof.
+  induction 1 as [|x l l' _ IH|x y l|l l' l'' _ IH1 _ IH2]; intros r Hr; cbn [seq_res] in *.
+  - exists r. split; [exact Hr|apply Permutation_refl].
+  - destruct (f x) as [a|e]; [|discriminate]. destruct (seq_res f l) as [b|e]; [|discriminate].
+    inversion Hr; subst. destruct (IH b eq_refl) as (b' & -> & P).
+    exists (a ++ b'). split; [reflexivity|now apply Permutation_app_head].
+  - destruct (f y) as [a|e]; [|discriminate]. destruct (f x) as [b|e]; [|discriminate].
+    destruct (seq_res f l) as [c|e]; [|discriminate]. inversion Hr; subst.
+    exists (b ++ a ++ c). split; [reflexivity|]. rewrite !app_assoc. apply Permutation_app_tail, Permutation_app_comm.
+  - destruct (IH1 r Hr) as (r1 & E1 & P1). destruct (IH2 r1 E1) as (r2 & E2 & P2).
+    exists r2. split; [exact E2|eapply Permutation_trans; eassumption].
+Qed.
+
+Lemma seq_res_ext {A E B} (f g : A -> res E (list B)) l : (forall x, f x = g x) -> seq_res f l = seq_res g l.
+Proof. intros H. induction l as [|x r IH]; cbn [seq_res]; [reflexivity|]. now rewrite H, IH. Qed.
+
+Lemma print_defs_seq pi o doc sec t ds :
+  print_defs pi o doc sec t ds = seq_res (print_type_decl pi o doc sec t) ds.
+Proof. induction ds as [|d r IH]; cbn [print_defs seq_res]; [reflexivity|]. now rewrite IH. Qed.
+
+Lemma print_representatives_seq pi o doc ds :
+  print_representatives pi o doc ds
+  = seq_res (fun d => with_local pi o doc d (fun local => [mk_decl 4 local (d_name d) BNone])) ds.
+Proof. induction ds as [|d r IH]; cbn [print_representatives seq_res]; [reflexivity|]. now rewrite IH. Qed.
+
+Lemma sel_keys_nodup {V} (sel : adef -> list (str * V)) (ds : list adef) :
+  (forall d kv, In kv (sel d) -> fst kv = d_name d) -> (forall d, (List.length (sel d) <= 1)%nat) ->
+  NoDup (map d_name ds) -> NoDup (keys (flat_map sel ds)).
+Proof.
+  intros Hk Hl. induction ds as [|d r IH]; intros Hnd; [constructor|].
+  cbn [map] in Hnd. inversion Hnd as [|? ? Hn Hr]; subst. cbn [flat_map].
+  unfold keys. rewrite map_app. fold (keys (flat_map sel r)).
+  pose proof (Hl d) as Hld. pose proof (Hk d) as Hkd.
+  destruct (sel d) as [|kv [|kv' t]]; cbn [map app]; [now apply IH| |cbn [List.length] in Hld; lia].
+  constructor; [|now apply IH].
+  rewrite (Hkd kv (or_introl eq_refl)). intros Hin. apply Hn.
+  unfold keys in Hin. apply in_map_iff in Hin. destruct Hin as (kv2 & E & Hin).
+  apply in_flat_map in Hin. destruct Hin as (d2 & Hd2 & Hkv2).
+  apply in_map_iff. exists d2. split; [|exact Hd2].
+  rewrite <- E. symmetry. now apply Hk.
+Qed.
+
+Section SkeletonPermutation.
+  Variable pi : oracle.
+  Variable o : hmap scfg.
+  Variables doc doc' : list item.
+  Hypothesis Hpi : is_oracle pi.
+  Hypothesis Hperm : Permutation doc doc'.
+  Hypothesis Hnd : NoDup (map d_name (type_defs doc)).
+
+  Let Htd : Permutation (type_defs doc) (type_defs doc') := type_defs_perm doc doc' Hperm.
+  Let Hnd' : NoDup (map d_name (type_defs doc')).
+  Proof. eapply Permutation_NoDup; [apply Permutation_map, Htd|exact Hnd]. Qed.
+
+  Definition st_sel (d : adef) : list (str * scfg) :=
+    match d_kind d with
+    | KScalar =>
+        match (match hm_get o (d_name d) with Some c => Some c | None => directive_ts_type d end) with
+        | Some c => [(d_name d, c)]
+        | None => []
+        end
+    | _ => []
+    end.
+
+  Lemma st_sel_key d kv : In kv (st_sel d) -> fst kv = d_name d.
+  Proof.
+    unfold st_sel. destruct (d_kind d); try (intros []).
+    destruct (match hm_get o (d_name d) with Some c => Some c | None => directive_ts_type d end); [|intros []].
+    intros [<-|[]]. reflexivity.
+  Qed.
+  Lemma st_sel_len d : (List.length (st_sel d) <= 1)%nat.
+  Proof.
+    unfold st_sel. destruct (d_kind d); cbn; try lia.
+    destruct (match hm_get o (d_name d) with Some c => Some c | None => directive_ts_type d end); cbn; lia.
+  Qed.
+
+  Lemma scalar_types_list d0 : NoDup (map d_name (type_defs d0)) ->
+    ctx_scalar_types o d0 = flat_map st_sel (type_defs d0).
+  Proof.
+    intros H. unfold ctx_scalar_types, get_scalar_types. fold st_sel.
+    apply hm_collect_nodup. apply sel_keys_nodup; [apply st_sel_key|apply st_sel_len|exact H].
+  Qed.
+
+  Lemma scalar_types_perm : Permutation (ctx_scalar_types o doc) (ctx_scalar_types o doc').
+  Proof. rewrite !scalar_types_list by assumption. now apply Permutation_flat_map. Qed.
+
+  Lemma scalar_types_get k : hm_get (ctx_scalar_types o doc) k = hm_get (ctx_scalar_types o doc') k.
+  Proof.
+    apply hm_get_perm; [apply scalar_types_perm|].
+    rewrite scalar_types_list by assumption. apply sel_keys_nodup; [apply st_sel_key|apply st_sel_len|exact Hnd].
+  Qed.
+
+  Lemma bag_mem_docs x :
+    bag_mem (bag_of_identifiers pi (ctx_scalar_types o doc)) x = bag_mem (bag_of_identifiers pi (ctx_scalar_types o doc')) x.
+  Proof.
+    unfold bag_mem, bag_of_identifiers. apply existsb_perm.
+    apply Permutation_flat_map, Permutation_flat_map, Permutation_map.
+    eapply Permutation_trans; [apply Hpi|]. eapply Permutation_trans; [apply scalar_types_perm|apply Permutation_sym, Hpi].
+  Qed.
+
+  Definition loc_entry (st : hmap scfg) (d : adef) : str * str :=
+    (d_name d, if bag_mem (bag_of_identifiers pi st) (d_name d) then tmp_prefix ++ d_name d else d_name d).
+
+  Lemma local_names_list d0 : NoDup (map d_name (type_defs d0)) ->
+    ctx_local_names pi o d0 = map (loc_entry (ctx_scalar_types o d0)) (type_defs d0).
+  Proof.
+    intros H. unfold ctx_local_names, make_local_type_names. cbv zeta. fold (loc_entry (ctx_scalar_types o d0)).
+    apply hm_collect_nodup. unfold keys. rewrite map_map. exact H.
+  Qed.
+
+  Lemma local_names_get k : hm_get (ctx_local_names pi o doc) k = hm_get (ctx_local_names pi o doc') k.
+  Proof.
+    rewrite !local_names_list by assumption.
+    rewrite (map_ext (loc_entry (ctx_scalar_types o doc')) (loc_entry (ctx_scalar_types o doc))).
+    - apply hm_get_perm; [now apply Permutation_map|]. unfold keys. rewrite map_map. exact Hnd.
+    - intros d. unfold loc_entry. now rewrite bag_mem_docs.
+  Qed.
+
+  Lemma local_of_docs n : local_of pi o doc n = local_of pi o doc' n.
+  Proof. unfold local_of. now rewrite local_names_get. Qed.
+
+  Lemma with_local_docs d k : with_local pi o doc d k = with_local pi o doc' d k.
+  Proof. unfold with_local. now rewrite local_names_get. Qed.
+
+  Lemma print_type_decl_docs sec t d a :
+    print_type_decl pi o doc sec t d = Ok a ->
+    exists a', print_type_decl pi o doc' sec t d = Ok a' /\ Forall2 decl_equiv a a'.
+  Proof.
+    unfold print_type_decl. rewrite <- scalar_types_get.
+    assert (Same : forall r : res perr (list decl), r = Ok a -> exists a', r = Ok a' /\ Forall2 decl_equiv a a').
+    { intros r ->. exists a. split; [reflexivity|apply Forall2_decl_refl]. }
+    destruct (d_kind d); try (rewrite <- ?with_local_docs; apply Same).
+    - (* scalar *)
+      destruct (hm_get (ctx_scalar_types o doc) (d_name d)); [rewrite <- with_local_docs; apply Same|discriminate].
+    - (* interface *)
+      destruct (is_input t); [apply Same|]. rewrite <- with_local_docs. unfold with_local.
+      destruct (hm_get (ctx_local_names pi o doc) (d_name d)) as [local|]; [|discriminate].
+      intros H; inversion H; subst a. eexists. split; [reflexivity|].
+      constructor; [|constructor]. repeat split; try reflexivity. cbn [dc_body body_equiv].
+      rewrite (map_ext (fun o0 => local_of pi o doc' (d_name o0)) (fun o0 => local_of pi o doc (d_name o0)))
+        by (intros; symmetry; apply local_of_docs).
+      apply Permutation_map.
+      destruct (ast_to_type_system_permutation doc doc' Hperm Hnd) as (_ & _ & Himpl & _). apply Himpl.
+    - (* union *)
+      destruct (is_input t); [apply Same|]. rewrite <- with_local_docs.
+      rewrite (map_ext (local_of pi o doc') (local_of pi o doc)) by (intros; symmetry; apply local_of_docs).
+      apply Same.
+  Qed.
+
+  Lemma print_defs_docs sec t l :
+    print_defs pi o doc sec t (type_defs doc) = Ok l ->
+    exists l', print_defs pi o doc' sec t (type_defs doc') = Ok l' /\ decls_equiv l l'.
+  Proof.
+    rewrite !print_defs_seq. intros H.
+    destruct (seq_res_pointwise decl_equiv _ (print_type_decl pi o doc' sec t) (type_defs doc)
+                (fun x a _ Hx => print_type_decl_docs sec t x a Hx) l H) as (l1 & E1 & F1).
+    destruct (seq_res_perm _ _ _ Htd l1 E1) as (l2 & E2 & P2).
+    exists l2. split; [exact E2|].
+    (* l ~F2~ l1 ~perm~ l2 : move the permutation to the left *)
+    clear - F1 P2. revert l F1. induction P2 as [|x a b _ IH|x y a|a b c _ IH1 _ IH2]; intros l F.
+    - inversion F; subst. exists []. split; constructor.
+    - inversion F as [|x0 ? l0 ? Hx Hl]; subst. destruct (IH l0 Hl) as (m & P & Fm).
+      exists (x0 :: m). split; [now constructor|now constructor].
+    - inversion F as [|y0 ? l0 ? Hy Hl]; subst. inversion Hl as [|x0 ? l1 ? Hx Hl1]; subst.
+      exists (x0 :: y0 :: l1). split; [apply perm_swap|repeat constructor; assumption].
+    - destruct (IH1 l F) as (m & P & Fm). destruct (IH2 m Fm) as (m' & P' & Fm').
+      exists m'. split; [eapply Permutation_trans; eassumption|exact Fm'].
+  Qed.
+
+  Lemma print_representatives_docs l :
+    print_representatives pi o doc (type_defs doc) = Ok l ->
+    exists l', print_representatives pi o doc' (type_defs doc') = Ok l' /\ decls_equiv l l'.
+  Proof.
+    rewrite !print_representatives_seq. intros H.
+    rewrite (seq_res_ext _ (fun d => with_local pi o doc d (fun local => [mk_decl 4 local (d_name d) BNone]))
+               (type_defs doc')) by (intros; symmetry; apply with_local_docs).
+    destruct (seq_res_perm _ _ _ Htd l H) as (l2 & E2 & P2).
+    exists l2. split; [exact E2|]. exists l2. split; [exact P2|apply Forall2_decl_refl].
+  Qed.
+
+  (** DESIGN §4 C17 [def_permutation] at the level of the emitted declarations *)
+  Lemma print_skeleton_permutation l :
+    print_skeleton pi o doc = Ok l ->
+    exists l', print_skeleton pi o doc' = Ok l' /\ decls_equiv l l'.
+  Proof.
+    unfold print_skeleton. generalize targets. intros ts. revert l.
+    induction ts as [|[sec t] r IH]; intros l; cbn [print_targets].
+    - apply print_representatives_docs.
+    - destruct (print_defs pi o doc sec t (type_defs doc)) as [a|e] eqn:Ea; [|discriminate].
+      destruct (print_targets pi o doc r) as [b|e] eqn:Eb; [|discriminate].
+      intros H; inversion H; subst l.
+      destruct (print_defs_docs sec t a Ea) as (a' & -> & Qa).
+      destruct (IH b eq_refl) as (b' & -> & Qb).
+      exists (a' ++ b'). split; [reflexivity|now apply decls_equiv_app].
+  Qed.
+End SkeletonPermutation.
